@@ -77,3 +77,11 @@ package xpull
 //@   ensures cast("*socket", result).recvExpire == 0
 //@
 // ---- end generated default contracts ----
+// ---- generated current-queue contracts (from `govc sites -select`): the select uses the socket's queues as of the last time the lock was held ----
+//@ func (*pipe).receiver
+//@   before select#1 assert selsends(p.s.recvQ) && selwaits(p.s.sizeQ)
+//@
+//@ func (*socket).RecvMsg
+//@   before select#1 assert selwaits(s.sizeQ) && selwaits(s.recvQ)
+//@
+// ---- end generated current-queue contracts ----
